@@ -60,6 +60,12 @@ Proof.
     + apply in_or_app; right; exact HH.
     + apply in_or_app; right; exact HH.
     + exact HH.
+  - (* TryElseN *)
+    pose proof (in_flat_map_sel e _ _ _ o IHexec1 IHexec2) as HH.
+    destruct o; simpl in *; apply in_or_app; left; exact HH.
+  - (* TryElseX *)
+    pose proof (in_flat_map_sel h _ _ _ o IHexec1 IHexec2) as HH.
+    destruct o; simpl in *; apply in_or_app; right; exact HH.
   - (* FinN *)
     pose proof (in_flat_map_sel f _ _ _ o IHexec1 IHexec2) as HH.
     destruct o; simpl in *; [exact HH | apply in_or_app; left; exact HH].
@@ -147,6 +153,16 @@ Proof.
     + apply flat_map_snd_inv in H as [s1 [H1 H2]].
       change Exc with (try_outcome false Exc).
       eapply E_TryX; [apply (IHp1 s); exact H1 | apply (IHp2 s1); exact H2].
+  - (* TryElse *)
+    split; intros s' H; apply in_app_or in H as [H|H].
+    + apply flat_map_fst_inv in H as [s1 [H1 H2]].
+      eapply E_TryElseN; [apply (IHp1 s); exact H1 | apply (IHp3 s1); exact H2].
+    + apply flat_map_fst_inv in H as [s1 [H1 H2]].
+      eapply E_TryElseX; [apply (IHp1 s); exact H1 | apply (IHp2 s1); exact H2].
+    + apply flat_map_snd_inv in H as [s1 [H1 H2]].
+      eapply E_TryElseN; [apply (IHp1 s); exact H1 | apply (IHp3 s1); exact H2].
+    + apply flat_map_snd_inv in H as [s1 [H1 H2]].
+      eapply E_TryElseX; [apply (IHp1 s); exact H1 | apply (IHp2 s1); exact H2].
   - (* Finally *)
     split; intros s' H.
     + apply flat_map_fst_inv in H as [s1 [H1 H2]].
